@@ -59,12 +59,17 @@ def create_linked_view(project, prefix=None, job_ids=None, path=None):
     key_list = [k for job in jobs for k in job.statepoint().keys()]
     value_list = [v for job in jobs for v in job.statepoint().values()]
     item_list = key_list + value_list
-    bad_items = [item for item in item_list if isinstance(item, str) and os.sep in item]
+    bad_items = [
+        item
+        for item in item_list
+        if isinstance(item, str) and (os.sep in item or item in (os.curdir, os.pardir))
+    ]
 
     if any(bad_items):
         err_msg = " ".join(
             [
-                f"In order to use view, state points should not contain {os.sep}:",
+                f"In order to use view, state points should not contain {os.sep}"
+                f" or be equal to {os.curdir} or {os.pardir}:",
                 str(set(bad_items)),
             ]
         )
